@@ -176,7 +176,23 @@ def run(ctx):
             elif full is None:
                 o.undecided(f"`{txt(lp.iter)}` not recognised as all edges", f, lp.iter)
             elif len(stores) != 1 or not any(stores[0] is s for s in lp.body):
-                o.undecided("counter update not recognised / conditional", f, lp)
+                # another spelling of the same counting loop: compare the summarised table with the reference
+                from gcmstatic import conform as _cf
+                import textwrap as _tw
+                ref = ast.parse(_tw.dedent('''
+                def count_edge_types(self):
+                    self._num_edges = {}
+                    for e in self._G.edges():
+                        self._num_edges[self._G.edges[e][NetworkNames.TOPOLOGY]] = self._num_edges.get(self._G.edges[e][NetworkNames.TOPOLOGY], 0) + 1
+                ''')).body[0]
+                got_t = _cf.attr_term_of_node(f.node, "_num_edges")
+                want_t = _cf.attr_term_of_node(ref, "_num_edges")
+                if got_t == want_t:
+                    o.holds(f, lp, "each edge adds exactly 1 to the count of its own topology (normal form equals the reference loop)")
+                elif tm.has_opaque(got_t):
+                    o.undecided("counter update not recognised / conditional", f, lp)
+                else:
+                    o.violated(f, lp, f"the per-topology edge counts are  {tm.show(got_t)[:200]}  - each edge must add exactly 1 under its own topology name")
             else:
                 s0 = stores[0]
                 sc = Scope(f.node)
